@@ -7,6 +7,7 @@
 (*   Monotone    within one function and one number of degrees of freedom the   *)
 (*               value does not increase when alpha grows                       *)
 (*   Symmetric   Normal(1-a) = -Normal(a), Student(1-a, N) = -Student(a, N)     *)
+(*               to sppm 1e-6 relative: 1 + the rounding of 1-a as a double      *)
 (*   Inverse     1 - Phi(Normal(a)) = a                                         *)
 (*   Accurate    |value - ref| <= tol |ref| against the committed reference      *)
 (*               table (tol 1e-6 normal, 5e-4 Student, 5e-3 chi-square)          *)
@@ -31,6 +32,11 @@ AbsFix(a) == IF a.i < 0 THEN NegFix(a) ELSE a
 (* tol (in 1e-6 relative units, "ppm") times |ref| in 1e-9 units:  ref * 1e9 * ppm * 1e-6 = ref * 1000 * ppm *)
 TolNano(ref, ppm) == LET r == AbsFix(ref) IN r.i * 1000 * ppm + (r.f \div 1000000) * ppm + ppm + 2
 
+(* large references (chi-square of many degrees of freedom) are compared in 1e-3 units: nano units times ppm leave 32 bits *)
+DiffMilli(a, b) == IF a.i - b.i > 100000 THEN 2000000000 ELSE IF b.i - a.i > 100000 THEN -2000000000
+                   ELSE (a.i - b.i) * 1000 + ((a.f \div 1000000) - (b.f \div 1000000))
+TolMilli(ref, ppm) == (AbsFix(ref).i * ppm) \div 1000 + ppm \div 1000 + 2
+IsBig(ref) == AbsFix(ref).i >= 100
 SameSeries(a, b) == a.e = b.e /\ (("dof" \in DOMAIN a) => a.dof = b.dof) /\ a.ser = b.ser
 BadFinite == {k \in 1..N : ~("big" \in DOMAIN T[k]) /\ ~Good(T[k])}
 (* records of one series are logged with increasing alpha (field idx) *)
@@ -41,10 +47,14 @@ BadCdfMonotone == {k \in 1..(N - 1) : /\ T[k].e = "NormalCdf" /\ T[k + 1].e = "N
                                        /\ Diff(T[k + 1].fx, T[k].fx) < 0}
 (* symmetric partners carry the index of their mirror record in field mirror *)
 BadSymmetric == {k \in 1..N : /\ "mirror" \in DOMAIN T[k] /\ Good(T[k]) /\ Good(T[T[k].mirror])
-                               /\ Abs(Diff(T[k].fx, NegFix(T[T[k].mirror].fx))) > TolNano(T[k].fx, 1) + 20}
+                               /\ IF AbsFix(T[k].fx).i >= 100
+                                     THEN Abs(DiffMilli(T[k].fx, NegFix(T[T[k].mirror].fx))) > TolMilli(T[k].fx, T[k].sppm)
+                                     ELSE Abs(Diff(T[k].fx, NegFix(T[T[k].mirror].fx))) > TolNano(T[k].fx, T[k].sppm) + 20}
 BadInverse == {k \in 1..N : T[k].e = "NormalInv" /\ Good(T[k]) /\ Abs(Diff(T[k].fx, T[k].afx)) > TolNano(T[k].afx, 2) + 5}
 BadAccurate == {k \in 1..N : /\ "ref" \in DOMAIN T[k] /\ Good(T[k])
-                              /\ Abs(Diff(T[k].fx, T[k].ref)) > TolNano(T[k].ref, T[k].ppm)}
+                              /\ IF IsBig(T[k].ref)
+                                    THEN Abs(DiffMilli(T[k].fx, T[k].ref)) > TolMilli(T[k].ref, T[k].ppm)
+                                    ELSE Abs(Diff(T[k].fx, T[k].ref)) > TolNano(T[k].ref, T[k].ppm)}
 
 Report(name, S) == (done \in BOOLEAN /\ S = {}) \/ (PrintT("REC " \o ToJson([law |-> name, bad |-> S])) /\ FALSE)
 Finite == Report("FINITE", BadFinite)
